@@ -150,7 +150,7 @@ def check_base64(ctx, d, exe, strings):
         exprs.append('(let* ((x (hx "%s")) (e (base64-encode-bytevector x))) (list (xh e) (xh (base64-decode-bytevector e))))' % hexs(bs))
         reqs.append("b64enc " + hexs(bs))
     mo = run_model(exe, reqs)
-    io = scm.run_cases(d, exprs, prelude_extra=PRELUDE, imports=IMPORTS)
+    io = scm.run_cases(d, exprs, prelude_extra=PRELUDE, imports=IMPORTS, timeout=150, chunk=1000)
     encs = []
     for bs, m, i in zip(strings, mo, io):
         ctx.count(1, key=("b64enc", bs), nontrivial=len(bs) > 0)
@@ -183,7 +183,7 @@ def check_base64(ctx, d, exe, strings):
     exprs = ['(xh (base64-decode-bytevector (hx "%s")))' % hexs(t) for t in texts]
     reqs = ["b64dec " + hexs(t) for t in texts]
     mo = run_model(exe, reqs)
-    io = scm.run_cases(d, exprs, prelude_extra=PRELUDE, imports=IMPORTS)
+    io = scm.run_cases(d, exprs, prelude_extra=PRELUDE, imports=IMPORTS, timeout=150, chunk=1000)
     for t, k, m, i in zip(texts, kinds, mo, io):
         ctx.count(1, key=("b64dec", t), nontrivial=True)
         if i != mx(m):
@@ -214,7 +214,7 @@ def check_qp(ctx, d, exe, strings):
         exprs.append('(let* ((x (hx "%s")) (e (quoted-printable-encode-bytevector x %d))) (list (xh e) (xh (quoted-printable-decode-bytevector e))))' % (hexs(bs), col))
         reqs.append("qpenc %d %s" % (col, hexs(bs)))
     mo = run_model(exe, reqs)
-    io = scm.run_cases(d, exprs, prelude_extra=PRELUDE, imports=IMPORTS)
+    io = scm.run_cases(d, exprs, prelude_extra=PRELUDE, imports=IMPORTS, timeout=150, chunk=1000)
     encs = []
     for (bs, col), m, i in zip(cases, mo, io):
         ctx.count(1, key=("qpenc", col, bs), nontrivial=len(bs) > 0)
@@ -244,7 +244,7 @@ def check_qp(ctx, d, exe, strings):
     exprs = ['(xh (quoted-printable-decode-bytevector (hx "%s")))' % hexs(t) for t in texts]
     reqs = ["qpdec " + hexs(t) for t in texts]
     mo = run_model(exe, reqs)
-    io = scm.run_cases(d, exprs, prelude_extra=PRELUDE, imports=IMPORTS)
+    io = scm.run_cases(d, exprs, prelude_extra=PRELUDE, imports=IMPORTS, timeout=150, chunk=1000)
     for t, m, i in zip(texts, mo, io):
         ctx.count(1, key=("qpdec", t), nontrivial=True)
         rp = "echo '(import (scheme base) (scheme write) (chibi quoted-printable)) (write (quoted-printable-decode-bytevector (bytevector %s)))' | chibi-scheme /dev/stdin" % " ".join(map(str, t[:400]))
@@ -285,7 +285,7 @@ def check_uri(ctx, d, exe):
     exprs = ['(let* ((s (cps %s)) (e (uri-encode s %s)) (b (uri-decode e %s))) (list (xh (string->utf8 e)) (xh (string->utf8 b))))' % (" ".join(map(str, s)), "#t" if p else "#f", "#t" if p else "#f") for s, p in cases]
     reqs = ["urienc %d %s %s" % (p, cpl(ext), cpl(s)) for s, p in cases]
     mo = run_model(exe, reqs)
-    io = scm.run_cases(d, exprs, prelude_extra=PRELUDE, imports=IMPORTS)
+    io = scm.run_cases(d, exprs, prelude_extra=PRELUDE, imports=IMPORTS, timeout=150, chunk=1000)
     encs = []
     for (s, p), m, i in zip(cases, mo, io):
         ctx.count(1, key=("urienc", p, tuple(s)), nontrivial=len(s) > 0)
@@ -325,7 +325,7 @@ def check_uri(ctx, d, exe):
     exprs = ['(xh (string->utf8 (uri-decode (cps %s) %s)))' % (" ".join(map(str, t)), "#t" if p else "#f") for t, p in cases]
     reqs = ["uridec %d %s" % (p, cpl(t)) for t, p in cases]
     mo = run_model(exe, reqs)
-    io = scm.run_cases(d, exprs, prelude_extra=PRELUDE, imports=IMPORTS)
+    io = scm.run_cases(d, exprs, prelude_extra=PRELUDE, imports=IMPORTS, timeout=150, chunk=1000)
     for (t, p), m, i in zip(cases, mo, io):
         ctx.count(1, key=("uridec", p, tuple(t)), nontrivial=True)
         rp = "echo '(import (scheme base) (scheme write) (chibi uri)) (write (uri-decode (list->string (map integer->char (list %s))) %s))' | chibi-scheme /dev/stdin" % (" ".join(map(str, t)), "#t" if p else "#f")
@@ -400,7 +400,7 @@ def check_accessors(ctx, d, exe):
                         reqs.append("bvset %d %d %s %s %s" % (size, big, hexs(bv), zh(k), zh(v)))
                         meta.append(("set", "bytevector-%sint-set!" % us, size, signed, big, bv, k, v))
     mo = run_model(exe, reqs)
-    io = scm.run_cases(d, exprs, prelude_extra=PRELUDE, imports=IMPORTS)
+    io = scm.run_cases(d, exprs, prelude_extra=PRELUDE, imports=IMPORTS, timeout=150, chunk=1000)
     shown = 0
     for e, m, i, mt in zip(exprs, mo, io, meta):
         kind, name, w, signed, big, bv, k, v = mt
